@@ -1,6 +1,7 @@
 //! Exploration engines shared by all checks (no dependency on h3).
 pub mod chooser;
 pub mod dfs;
+pub mod panics;
 pub mod par;
 pub mod report;
 
